@@ -181,3 +181,11 @@ Theorem C20_mapor_nk_components (H : list (oprec (mop oop))) :
   mo_state_entries s k = ospec_entries (mo_proj os k).
 Proof. exact (mapor_components_nk H). Qed.
 Print Assumptions C20_mapor_nk_components.
+
+(** Map<K1, Map<K2, Orswot>> when no key is ever removed: equal knowledge gives Leibniz-equal complete states under per-actor delivery,
+    duplicates and merges (proofs/MapMapOrswotNK.v) *)
+From Crdt Require Import model.Orswot model.Map spec.System spec.OrswotSpec spec.OrswotSystem spec.MapSpec spec.MapSystem spec.MapOrswotSpec spec.MapMapOrswotSpec spec.MapMapOrswotNKSpec proofs.MapMapOrswotNK.
+Theorem C20_map2_nk_state_eq (H : list (oprec (mop (mop oop)))) :
+  m2hist_ok_nk H -> forall (s1 s2 : cmap (cmap orswot)) (K : gset nat), m2reach_nk H s1 K -> m2reach_nk H s2 K -> s1 = s2.
+Proof. exact (map2_converge_nk H). Qed.
+Print Assumptions C20_map2_nk_state_eq.
